@@ -22,6 +22,8 @@ macro_rules! forward_async_methods {
                     Self::Tcp(d) => d.$method_name($( $arg ),*).await,
                     Self::TcpTls(s) => s.$method_name($( $arg ),*).await,
                     Self::Quic(s) => s.$method_name($( $arg ),*).await,
+                    #[cfg(feature = "iggy_verif")]
+                    Self::Sim(s) => s.$method_name($( $arg ),*).await,
                 }
             }
         )*
@@ -46,6 +48,8 @@ pub enum SenderKind {
     Tcp(TcpSender),
     TcpTls(TcpTlsSender),
     Quic(QuicSender),
+    #[cfg(feature = "iggy_verif")]
+    Sim(crate::verif::SimSender),
 }
 
 impl SenderKind {
